@@ -111,6 +111,18 @@ type SendRun struct {
 // CaptureLogger records every log.Log handed to it.
 type CaptureLogger struct {
 	Records []LogRec
+	raw     []mlog.Log
+}
+
+// Late formats the records now — the way a logger does that collects what it is handed and
+// writes it out later, on another goroutine or in batches. What a record shows must not depend
+// on when it is formatted.
+func (c *CaptureLogger) Late() []string {
+	var out []string
+	for _, l := range c.raw {
+		out = append(out, fmt.Sprintf(l.Format, l.Messages...))
+	}
+	return out
 }
 
 // LogRec is one captured record, formatted.
@@ -126,6 +138,7 @@ func (c *CaptureLogger) rec(level string, l mlog.Log) {
 		d = "S->C"
 	}
 	c.Records = append(c.Records, LogRec{Level: level, Dir: d, Text: fmt.Sprintf(l.Format, l.Messages...)})
+	c.raw = append(c.raw, l)
 }
 func (c *CaptureLogger) Debugf(l mlog.Log) { c.rec("debug", l) }
 func (c *CaptureLogger) Infof(l mlog.Log)  { c.rec("info", l) }
